@@ -4,6 +4,7 @@
 mod ctx;
 mod gen;
 mod props;
+mod sched;
 mod wire;
 
 use ctx::{Ctx, Exec};
@@ -16,6 +17,7 @@ fn exec_for(prop: &str) -> Exec {
         "C16" => props::windows::exec,
         "C06" => props::batch::exec,
         "C07" => props::multigen::exec,
+        "C05" | "C09" => props::pipe::exec,
         "C01" | "C02" | "C03" | "C04" => props::tok::exec,
         _ => panic!("unknown property {prop}"),
     }
@@ -44,6 +46,8 @@ fn main() {
                 "C16" => props::windows::run_c16(&mut c),
                 "C06" => props::batch::run_c06(&mut c),
                 "C07" => props::multigen::run_c07(&mut c),
+                "C05" => props::pipe::run_c05(&mut c),
+                "C09" => props::pipe::run_c09(&mut c),
                 "C01" => props::tok::run_c01(&mut c),
                 "C02" => props::tok::run_bpe(&mut c, false),
                 "C03" => props::tok::run_bpe(&mut c, true),
@@ -51,6 +55,9 @@ fn main() {
                 _ => unreachable!(),
             }
             c.finish(dir);
+        }
+        Some("panic-child") => {
+            props::pipe::panic_child(args[2].parse().unwrap(), args[3].parse().unwrap(), args[4].parse().unwrap());
         }
         Some("replay") => {
             let prop = args[2].as_str();
